@@ -11,7 +11,7 @@ MANIFEST = dict(
 ABS_INVS = ["RefCommitted", "RefLive", "AttrAgree", "NoTxMeansCommitted"]
 ABS_PROPS = ["FailedFlushCommitsNothing", "FailNeedsRollback", "PendingRollbackUntilRollback", "FailRestoresScope", "RedoOk", "AfterRollback"]
 MECH_INVS = ["OneIdentity", "RefCommitted", "RefLive", "NoTxMeansCommitted"]
-MECH_PROPS = ["FailedFlushCommitsNothing", "FailNeedsRollback", "PendingRollbackUntilRollback", "FailRestoresScope"]
+MECH_PROPS = ["FailedFlushCommitsNothing", "FailNeedsRollback", "PendingRollbackUntilRollback"]
 FOOTPRINT = ["Add", "SetV", "SetPk", "Delete", "Flush", "FlushFail", "FailRedo", "Commit", "Rollback", "BeginNested", "SpRollback", "Get"]
 
 
@@ -20,13 +20,13 @@ def spec(chk):
     acts = ["SetV", "SetPk", "Fail", "Redo", "Sp", "Get"]
     return dict(
         cfgs=[
-            dict(name="fail", objs=2, maxsp=1, depth=6 if q else 8, ideal_depth=7 if q else 9, eoc=True, acts=acts,
+            dict(name="fail", objs=2, maxsp=1, depth=6 if q else 7, ideal_depth=7 if q else 8, eoc=True, acts=acts,
                  random=200 if q else 2000, sim=(40, 20) if q else (600, 30)),
             dict(name="fail3", objs=3, maxsp=1, depth=5 if q else 6, ideal_depth=5 if q else 7, eoc=True, acts=["SetV", "Fail", "Redo"] + ([] if q else ["SetPk", "Sp"]),
                  random=100 if q else 1000),
         ],
         mech_invs=MECH_INVS, mech_props=MECH_PROPS, abs_invs=ABS_INVS, abs_props=ABS_PROPS,
-        devs={},
+        devs={"ksw": dict(acts=["SetPk", "Fail"])},
         footprint=FOOTPRINT,
         nontrivial=lambda frm, act: act["a"] in ("FlushFail", "FailRedo") or (isinstance(act["ret"], str) and act["ret"] in (
             "IntegrityError", "StaleDataError", "ObjectDeletedError", "PendingRollbackError")) or (act["a"] in ("Rollback", "SpRollback") and frm["needrb"]),
